@@ -16,6 +16,7 @@ def check(ctx):
     ctx.guard(_mixture, ctx)
     ctx.guard(r088_best_h, ctx)
     ctx.guard(r089_eval_gap, ctx)
+    ctx.guard(r0812_precision, ctx)
     ctx.guard(r0810_linprog, ctx)
     ctx.guard(r0811_setup, ctx)
 
@@ -427,6 +428,20 @@ def r088_best_h(ctx):
     ret = r.ret
     ok = ret is not None and ret.op == "tuple" and len(ret.args[0]) == 2 and ret.args[0][0].op == "sub" and ret.args[0][0].args[1] is ret.args[0][1]
     ctx.ob("R08.8", fq, None, ok, "best_h returns (hs[best_idx], best_idx)", construct="best_h return")
+
+
+def r0812_precision(ctx):
+    ctx.rule("R08.12", "_PRECISION is a small tolerance (0 <= _PRECISION <= 1e-6): best_h keeps a stored classifier whose Lagrangian is "
+                       "within _PRECISION of the new best response, so L_low - and with it the certified gap - is exact only up to "
+                       "that amount")
+    A = Analysis(ctx)
+    v = A.ev.eval_src("_PRECISION", {}, module=M_LAG)
+    while v.op == "modconst":
+        v = v.args[1]
+    val = const_value(v) if v.op == "const" else None
+    ok = isinstance(val, (int, float)) and not isinstance(val, bool) and 0 <= val <= 1e-6
+    ctx.ob("R08.12", M_LAG + ":<module>", None, ok, f"_PRECISION = {val}" if ok else f"_PRECISION = {val}: the certificate can be "
+           "understated by that much", construct="_PRECISION magnitude")
 
 
 def r089_eval_gap(ctx):
